@@ -729,6 +729,8 @@ class World:
         obj, root, parent = self.resolve_target(op)
         if obj is None or root is None:
             return {"op": "sweep_eval", "outcome": "skipped"}
+        if op.get("cold") and parent is None:
+            return self.sweep_eval_cold(op, root)
         frame = self.frame(op["frame"])
         part = op["part"]
         fn = lambda: _do_eval(obj, frame)  # noqa: E731
@@ -784,6 +786,69 @@ class World:
                     self.fail("A", "post-sweep-reference", "canary", f"after {points} aborted evaluations the "
                               f"evaluation differs from a fresh process: {d}")
         return {"op": "sweep_eval", "outcome": "ok", "sd": f"N={N}", "points": points}
+
+    def sweep_eval_cold(self, op, root):
+        """Every crash point of the FIRST evaluation on a design: for each point a fresh design is built
+        (same arguments as the root design), the evaluation is aborted there, and the same evaluation is
+        repeated un-faulted on that design; it must give what a never-interrupted design gives.  This is
+        what exposes lazily initialised state (a cache filled on first use) left half-built."""
+        bop = root["op"]
+        client = self.clients[bop["client"]]
+        train = self.frame(bop["frame"])
+        frame = self.frame(op["frame"])
+        part = op["part"]
+        mode = op.get("mode", "line")
+
+        def fresh():
+            dm, _ = _do_build(client, bop, train)
+            return getattr(dm, part)
+
+        try:
+            cold = fresh()
+            base, wl = self.inj.run(lambda: _do_eval(cold, frame), at=None, mode=mode)
+        except Exception as e:  # noqa: BLE001
+            return {"op": "sweep_eval", "outcome": "baseline-raise", "sd": type(e).__name__}
+        N = self.inj.count
+        base_obs = observe_part(base, part)
+        ks = op.get("ks") or list(range(1, N + 1, op.get("stride", 1)))
+        flavours = op.get("flavours") or ["base", "exc"]
+        points = 0
+        for k in ks:
+            fl = flavours[k % len(flavours)] if not op.get("ks") else flavours[0]
+            points += 1
+            try:
+                obj = fresh()
+            except Exception:  # noqa: BLE001
+                break
+            try:
+                self.inj.run(lambda: _do_eval(obj, frame), at=k, flavour=fl, mode=mode)
+                fired = self.inj.fired is not None
+            except (SimAbortBase, SimAbortExc):
+                fired = True
+            except Exception:  # noqa: BLE001
+                fired = self.inj.fired is not None
+            if fired:
+                self.bump(f"fault.fired.inject.eval.{mode}.{fl}")
+                self.probe(f"abort_in:{self.inj.fired[0]}:{self.inj.fired[1]}")
+            self.sweep_ctx = {"k": k, "flavour": fl}
+            self.after_step(op, sweep=True)
+            try:
+                again, _ = _do_eval(obj, frame)
+                d = compare_obs(base_obs, observe_part(again, part), part, self.stats)
+            except Exception as e:  # noqa: BLE001
+                d = f"canary evaluation raised {type(e).__name__}"
+            if d:
+                self.fail("A", "post-abort-canary", "canary-cold",
+                          f"the first evaluate_new_data on a freshly built design was aborted at {mode} event {k} "
+                          f"({fl}, {self.inj.fired}); the same evaluation on that design afterwards differs from "
+                          f"what a never-interrupted design gives: {d}", {"sweep": {"k": k, "flavour": fl}})
+        self.sweep_ctx = None
+        self.bump("sweep.eval.cold.ops")
+        self.bump("sweep.eval.ops")
+        self.bump("sweep.eval.points", points)
+        self.bump(f"sweep.eval.points.{mode}", points)
+        self.bump("sweep.eval.cold.points", points)
+        return {"op": "sweep_eval", "outcome": "ok", "sd": f"cold N={N}", "points": points}
 
     def op_sweep_build(self, op):
         client = self.clients[op["client"]]
